@@ -9,7 +9,7 @@ import (
 )
 
 func (p *PcClient) restartProcess(name string) error {
-	url := fmt.Sprintf("http://%s/process/restart/%s", p.address, name)
+	url := fmt.Sprintf("http://%s/process/restart/%s", p.address, pathSegment(name))
 	resp, err := p.client.Post(url, "application/json", nil)
 	if err != nil {
 		return err
